@@ -99,4 +99,13 @@ CLAIMED["C10"] = {"text": "Coq theorems: with a constant format of plain verbs (
                  "client text verbatim.",
          "note": TB + "fmt's behaviour on constant plain-verb formats as in Lib/Fmt.render (stdlib); translator trusted (cross-checked by the notice streams).",
          "technique": "model regenerated from source by a translator + reflective Coq obligation (vm_compute) + soundness theorems; dynamic notice checks as search"}
+CLAIMED["C09"] = {"text": "Coq theorem for EVERY decoded request path (any bytes): the path the file handler opens under the root is '/' or a sequence of "
+                 "elements none of which is empty, '.', '..' or contains '/', i.e. lexically inside the tree (path.Clean's contract, model validated "
+                 "against the real path.Clean on 1500 hostile paths per run). PARTIAL: that the mux, FileServer and http.Dir apply exactly this, that "
+                 "shell endpoints win over files, unset => 404 and single file => that file is exercised, not proved: ~140 raw request lines over "
+                 "real TLS x 3 modes (tagged tree files named like the endpoints, canaries just outside incl. a sibling extending the root's name; "
+                 "plain/encoded/double-encoded dot segments, encoded slashes/backslashes, NUL, 5000-byte and 40-level paths, POST/PUT to endpoints) "
+                 "judged in Coq against the cleaned-path model (content only of the file the cleaned path names; never a canary; notices).",
+         "note": TB + "net/http parser, ServeMux, FileServer, http.Dir are standard library (modelled by their contract); symlinks out of the tree are followed by design.",
+         "technique": "Coq proof (lexical confinement of the cleaned path) + canary-based differential test judged by vm_compute"}
 NOT_CLAIMED = {}
